@@ -207,7 +207,9 @@ def r2_reachability(ctx):
                 for c in fr.cells:
                     if isinstance(c.v, X.ListV) and c.v.parts and c.v.parts[-1] == ('one', i):
                         recorded = True
-                ok = recorded
+                # .. and its edge loop ran (until the edges ran out) on this way round: a popped state whose successors
+                # are not pushed cuts the exploration short
+                ok = recorded and loop_exhausted(ip, it.state)
             ctx.obligation(ok)
             (ctx.ok if ok else ctx.violation)('C14.R2', 'C14.R2/remove_unreachable_states/popped-state-recorded-as-reachable', fn.path, fn.site(), None, cfg)
         for o in log.outs:
